@@ -290,6 +290,30 @@ def r4_config_plumbing(ctx) -> None:
         ok = tseq(lp.body, [f"if issubclass({v}, ConfiguredBaseModel):\n    {v}.update_model_config(config)\n    {v}.model_rebuild(**kwargs)"]) is not None
     ctx.check(ok, "C17.R2", "tys.model_rebuild: every configured class is updated and rebuilt", tys.path, mr.lineno,
               "model_rebuild must apply the config to every ConfiguredBaseModel subclass in the map and rebuild it", mr)
+    # the models that embed configured classes -- the RootModel unions OpType, Type, TypeArg, .. that sit between the root
+    # document and the op / type classes -- must be rebuilt as well, after their members: pydantic compiles a model's
+    # validator when the model is (re)built and embeds its members' validators as they are then (trusted library behaviour,
+    # confirmed once at run time); a union that is not rebuilt keeps validating its members with the import-time
+    # configuration, so the strict decoder accepts what the strict published schema (additionalProperties: false) rejects
+    ops_m = prog.module("hugr._serialization.ops")
+    embedding = []
+    for mod_ in (tys, ops_m):
+        for c_ in mod_.classes.values():
+            bases = c_.base_names()
+            if "RootModel" in bases and not c_.is_subclass_of("ConfiguredBaseModel"):
+                f_ = c_.find_field("root")
+                if f_ is not None:
+                    embedding.append(c_)
+    rebuilt_unconditionally = ok and any(
+        isinstance(s_, ast.Expr) and isinstance(s_.value, ast.Call) and u(s_.value.func) == f"{v}.model_rebuild" for s_ in lp.body) if ok else False
+    second_pass = [n for n in ast.walk(mr) if isinstance(n, ast.For) and n is not (loops[0] if loops else None)]
+    covered = rebuilt_unconditionally or bool(second_pass)
+    ctx.check(covered or not embedding, "C17.R2", "tys.model_rebuild: models that embed configured classes are rebuilt too", tys.path, mr.lineno,
+              f"model_rebuild rebuilds only ConfiguredBaseModel subclasses; the union models {sorted(c_.name for c_ in embedding)} embed them but are never "
+              "rebuilt, so after a strict rebuild the decoder still accepts unknown fields inside operations and types nested under them "
+              "(e.g. {\"parent\":0,\"op\":\"Module\",\"BOGUS\":1} as a node) while the strict published schema rejects them", mr,
+              expected="every pydantic model of the map is rebuilt after the configuration was applied, members before the unions that embed them",
+              found="only `if issubclass(c, ConfiguredBaseModel): ... c.model_rebuild(**kwargs)`")
     cb = tys.classes.get("ConfiguredBaseModel")
     um = cb.methods.get("update_model_config") if cb else None
     ok = um is not None and thas(um, "cls.model_config.update(config)")
